@@ -121,6 +121,74 @@ def replay_states(states, seed):
     return n, nontriv, fails[:40], sample
 
 
+def _rt_worker(seed, n):
+    import rows_trace as RT
+    return RT.record_batch(seed, n)
+
+
+def trace_rows(ck, nfiles):
+    """code -> spec: random tables / layouts / settings read by the real code, validated by Trace_Rows."""
+    import copy
+    from props.totals_common import run_trace_spec
+    nw = 16
+    outs = par.pmap(_rt_worker, [ck.seed * 7919 + 31 * s + 5 for s in range(nw)], extra=(max(1, nfiles // nw),))
+    by_id, skipped = {}, 0
+    for rs, sk in outs:
+        skipped += sk
+        for r in rs:
+            by_id[r['id']] = r
+    recs = [{k: v for k, v in r.items() if not k.startswith('_')} for r in by_id.values()]
+    base = next((r for r in recs if len(r['obs']) >= 1), None)
+    if base is None:
+        raise core.Machinery('rows trace recorder: no file produced a transaction')
+    tam = copy.deepcopy(base)
+    tam['id'] = 'TAMPER'
+    tam['obs'][0]['cents'] += 1000
+    shards = [recs[k::4] for k in range(4)]
+    shards[0] = shards[0] + [tam]
+    rej = {}
+    for part in par.pmap(_rt_validate, [(k, sh) for k, sh in enumerate(shards)]):
+        name, res_rej, tl = part
+        ck.add_tlc(name, tl)
+        rej.update(res_rej)
+    if 'TAMPER' not in rej and base['id'] not in rej:
+        raise core.Machinery('Trace_Rows accepted a tampered record: the binding is vacuous')
+    rej.pop('TAMPER', None)
+    ck.trace(len(recs))
+    ck.case(n=len(recs))
+    mixed = sum(1 for r in by_id.values() if r['_mixed'])
+    ck.case(('trace_rows_mixed', mixed), nontrivial=mixed > 0, n=0)
+    ck.extra['trace_rows'] = {'files': len(recs), 'outside_statement_skipped': skipped, 'transactions': sum(r['_n'] for r in by_id.values()),
+                              'files_mixing_read_and_skipped_rows': mixed, 'rejected': len(rej)}
+    for rid, clauses in sorted(rej.items()):
+        if any(c.startswith('MODEL') for c in clauses):
+            raise core.Machinery('Trace_Rows model inconsistency on %s: %s' % (rid, sorted(clauses)))
+        r = by_id[rid]
+        ck.violation({'site': 'parse_generic_csv', 'clause': sorted(clauses), 'via': 'trace_rows', 'delimiter': r['_source'].get('delimiter', ',')},
+                     {'file_text': r['_text'], 'source': r['_source'], 'decimal': r['_dec'], 'rows_as_read_by_harness': r['rows'],
+                      'observed': r['obs'], 'cfg': r['cfg'], 'header': r['header'], 'tmap': r['tmap']},
+                     'recorded parse_generic_csv result is not Rows!Parse of the file (%s): source %s, decimal %s' % (
+                         sorted(clauses), r['_source'], r['_dec']))
+
+
+def _rt_validate(item):
+    k, recs = item
+    from props.totals_common import run_trace_spec
+
+    class _Ck:            # collect the TLC result without touching the real context in a worker
+        def __init__(self):
+            self.res = None
+
+        def add_tlc(self, name, res):
+            if res.error:
+                raise core.Machinery('TLC run %s failed: %s' % (name, res.error))
+            self.res = res
+    c = _Ck()
+    rej = run_trace_spec(c, 'Trace_Rows/%d' % k, recs, module='Trace_Rows', cfg='Trace_Rows.cfg')
+    c.res.stdout = ''
+    return 'Trace_Rows/%d' % k, rej, c.res
+
+
 def run(ck):
     quick = ck.tier == 'quick'
     ck.assumptions += ['cells come from a vocabulary whose reading under each decimal convention follows from the statement; debatable '
@@ -149,6 +217,7 @@ def run(ck):
             ck.violation(sig, case, what)
         if sample:
             ck.sample(sample, cap=3)
+    trace_rows(ck, 24000 if quick else 240000)
     ck.extra['rule'] = ('tables of <= 2 rows (every vocabulary cell substituted into a good row; short / long / empty-line rows) and <= 3 (quick) / 4 rows '
                         '(13 row kinds), x 4 layouts (simple, skip+ISO+location, captures+template, extra field) x 3 sign modes x 2 decimal '
                         'conventions x header yes/no, each rendered twice with random delimiter (comma, semicolon, tab, regex), quoting policy '
